@@ -103,6 +103,8 @@ func checkC10(p *Program, r *Result) {
 		"C10.a | mcap.indexedMessageIterator.NextInto | slice-high(it.chunkSlots[·].buf) <- mcap.checkedAdd()#0": "the record length is re-read from the same 8 bytes that loadChunk validated against the slot size when it indexed the message; the slot buffer is not rewritten while unreadMessages > 0 (C20.b/c)",
 	}
 	emitBoundReports(p, r, ba, "C10.a", suppress)
+	r.rule("C10.d", "fixed-position reads of a record buffer follow a minimum-length test", 1)
+	checkParserMinLength(p, r, "C10.d")
 	r.rule("C10.k", "a checked value plus a constant still fits: the guard leaves room for what is added", 1)
 	checkAdditiveBounds(p, r, "C10.k", sortedFuncs(scope), nil)
 	r.Extra["raw_fields"] = rawFieldList(ba)
